@@ -127,6 +127,12 @@ def run(rep):
              'specifications: _uncached_lookup subscribes the lookup object to '
              'every required spec on hit and on miss (else a cached winner '
              'survives classImplements/__bases__ changes)', floor=1)
+    rep.rule('R04.8', 'the winner is the one of the registries\' CURRENT contents, also '
+             'when asked through a registry further down: every mutator of the '
+             'registration storage ends in self.changed() (which reaches every '
+             'sub-registry and bumps the generation verifying sub-registries compare), '
+             'the generation only moves forward, and code that suspends changed() '
+             'delivers it afterwards (C05 INV-1/INV-7, C06 R06.5)', floor=6)
     rep.decline('none - relative to C02/C03 (resolution orders) and C01 '
                 '(providedBy)')
 
@@ -203,3 +209,9 @@ def run(rep):
     # ... and later changes of a base registry (verifying registries answer
     # from their cache only while the snapshot covers EVERY registry above)
     cside.verify_snapshot_c(rep, cside.cu(rep), 'R04.7')
+    # ---- R04.8 ---------------------------------------------------------------
+    from ..pyfront import ClassTable
+    from .C05 import inv1, inv7
+    inv1(rep, mod, ClassTable(repo, ['adapter.py']), rule='R04.8')
+    inv7(rep, rule='R04.8')
+    shared.generation_monotone(rep, 'R04.8', mod)
